@@ -985,6 +985,13 @@ func (s *PrintCtx) pcAppendQuotedStringValue(str string) {
 }
 
 func (s *PrintCtx) appendQuotedString(str string) {
+	if s.jsonMode {
+		// JSON has its own escapes: Go syntax (\x07, \a, \v, \U0001F600) is not JSON
+		s.pcAppendByte('"')
+		s.appendEscapedJSONString(str)
+		s.pcAppendByte('"')
+		return
+	}
 	s.PreAlloc(len(str)*2 + 2)
 	s.buf = appendQuotedWith(s.buf, str, '"', false, false)
 }
